@@ -527,7 +527,7 @@ Proof.
   { unfold t. rewrite ?Ev. rewrite utf8_encode_app, (utf8_encode_ascii _ (indent_ascii i)). cbn [app]. rewrite (encode_cons_ascii _ _ Hc). reflexivity. }
   split; [exact Tok|]. split; [eexists; eexists; split; [exact Eb|exact Hd]|].
   split; [rewrite Eb; apply has_prefix_app|].
-  unfold t. rewrite ?Ev. rewrite (peek_at_cons _ _ (indent_text i) c (r ++ tail) eq_refl eq_refl). exact Hd.
+  rewrite (peek_at_cons t _ (indent_text i) c (r ++ tail) eq_refl eq_refl). exact Hd.
 Qed.
 
 (* ---- B2: a second open range ---- *)
@@ -571,7 +571,10 @@ Lemma record_texts_split r es1 e es2 t : sr_entries r = es1 ++ e :: es2 ->
       (map (fun x => ind ++ ind ++ x) (se_more e) ++ flat_map (entry_texts ind) es2).
 Proof.
   intros Ee ind. unfold record_texts, entry_line_index. rewrite Ee. cbn [replace_nth]. f_equal.
-  rewrite flat_map_app. cbn [flat_map]. unfold entry_texts at 2. cbn [app].
+  rewrite flat_map_app. cbn [flat_map].
+  change (entry_texts (indent_text (sr_indent r)) e)
+    with ((ind ++ render_value (se_value e) ++ first_tail e) :: map (fun x => ind ++ ind ++ x) (se_more e)).
+  rewrite <- app_comm_cons. fold ind.
   rewrite app_assoc, <- app_length. rewrite replace_nth_app, <- app_assoc. reflexivity.
 Qed.
 
@@ -659,4 +662,89 @@ Proof.
   apply (reject_entry_gen d k rg es1 e es2 t W Hk Ee Rok Hshape).
   apply second_open_errs; try assumption.
   rewrite has_open_denote. destruct (count_open es1); [congruence|reflexivity].
+Qed.
+
+(* known finding K3 *)
+Lemma zs_blank_line_witness : exists s es,
+  s = b!"2020-01-01" ++ [10; 194; 160; 10]%N ++ b!"2020-01-02" ++ [10%N] /\
+  blank_char 160 = true /\ parse_text s = Ok (Failed es) /\ es <> [].
+Proof.
+  eexists. eexists. split; [reflexivity|]. split; [reflexivity|]. split; [vm_compute; reflexivity|discriminate].
+Qed.
+
+(* ---- C: a record summary line that starts with a blank character ---- *)
+
+Lemma summary_error_fails b hl rest head tail : significant_lines b = (hl :: rest, head, tail) ->
+  snd (fst (fst (fst (parse_summary_lines (S head) rest [] (headline_errs (parse_headline head (utf8_decode (l_text hl)))))))) <> [] ->
+  block_fails b.
+Proof.
+  intros Hsig He. pose proof (parse_record_shape b hl rest head tail Hsig) as H. cbv zeta in H.
+  destruct (parse_summary_lines (S head) rest [] _) as [[[[summary errs1] style] rest1] ln1]. cbn [fst snd] in He.
+  assert (N2 : match style with Some st => snd (parse_entries (length rest1) st ln1 rest1 [] errs1) | None => errs1 end <> []).
+  { destruct style as [st|]; [|exact He]. apply (extends_nonempty errs1); [apply parse_entries_extends|exact He]. }
+  destruct H as [[E _]|[_ H]]; [congruence|]. eexists; split; [exact H|exact N2].
+Qed.
+
+Lemma blank_summary_fails r s1 s s2 t : wf_record r = true -> sr_summary r = s1 ++ s :: s2 ->
+  text_ok t = true ->
+  match t with c :: _ => blank_char c = true | [] => False end ->
+  find_indentation (utf8_encode t) = None ->
+  forall others,
+  forallb (fun t => negb (blank_text t)) (headline_text r :: s1 ++ t :: others) = true ->
+  sig_fails (headline_text r :: s1 ++ t :: others).
+Proof.
+  intros W Es Tok Hc Hfi others Nb b head sig tail Hb Hh Ht M.
+  destruct (sig_significant b head sig tail _ _ Hb Hh Ht M Nb) as (hl & rs & -> & Mh & Mr & Sg).
+  destruct (wf_record_inv r W) as (W' & H3 & H2 & H1 & H0 & H).
+  rewrite map_app in Mr. apply map_eq_app in Mr as (ls_s & ls_b & -> & Ms & Mb).
+  cbn [map] in Mb. apply map_eq_cons in Mb as (lb & ls_x & -> & Mlb & Mx).
+  rewrite Es, forallb_app in H1. apply andb_true_iff in H1 as [H11 _].
+  apply (summary_error_fails b hl _ _ _ Sg).
+  rewrite Mh, (decode_encode _ (headline_text_ok r W)), (parse_headline_spec (length head) r W' H3 H2). cbn [headline_errs].
+  rewrite (parse_summary_lines_spec s1 H11 ls_s (S (length head)) (lb :: ls_x) [] Ms).
+  rewrite Mlb, Hfi. cbn [parse_summary_lines]. rewrite Mlb, Hfi, (decode_encode _ Tok).
+  destruct t as [|c t']; [contradiction|]. rewrite <- blank_char_is_zs, Hc.
+  match goal with |- snd (fst (fst (fst (parse_summary_lines _ _ _ ([] ++ [?e]))))) <> [] =>
+    apply (extends_nonempty ([] ++ [e])); [apply parse_summary_lines_extends|discriminate] end.
+Qed.
+
+(* the index, within a record's lines, of the summary line that follows the summary lines s1 *)
+Definition summary_line_index (s1 : list text) : nat := S (length s1).
+
+(* L4, class "summary line starting with a blank character" *)
+Theorem reject_blank_summary d k rg s1 s s2 t :
+  wf d -> nth_error (do_records d) k = Some rg -> sr_summary (fst rg) = s1 ++ s :: s2 ->
+  match t with c :: _ => blank_char c = true | [] => False end ->
+  find_indentation (utf8_encode t) = None ->
+  raw_ok (inject_raw k (summary_line_index s1) t d) = true ->
+  exists es, parse_text (inject k (summary_line_index s1) t d) = Ok (Failed es) /\ es <> [].
+Proof.
+  intros W Hk Es Hc Hfi Rok. apply (reject_raw _ Rok).
+  rewrite (inject_group k _ t d rg Hk).
+  apply (Exists_replace_nth _ _ k (record_texts (fst rg), snd rg)).
+  { apply (map_nth_error (fun rg => (record_texts (fst rg), snd rg)) k (do_records d) Hk). }
+  cbn [fst].
+  assert (Wr : wf_record (fst rg) = true).
+  { unfold wf, wf_doc in W. apply andb_true_iff in W as [W' _]. apply andb_true_iff in W' as [W' _]. apply andb_true_iff in W' as [_ Wr].
+    apply (forallb_nth_error _ _ k rg Wr Hk). }
+  pose proof Rok as Rok'. unfold raw_ok in Rok'. apply andb_true_iff in Rok' as [W' _]. apply andb_true_iff in W' as [W' _].
+  apply andb_true_iff in W' as [W' Sg]. apply andb_true_iff in W' as [_ T].
+  rewrite (inject_group k _ t d rg Hk) in Sg.
+  pose proof (forallb_nth_error _ _ k _ Sg (nth_error_replace_nth _ k (record_texts (fst rg), snd rg) _
+               (map_nth_error (fun rg => (record_texts (fst rg), snd rg)) k (do_records d) Hk))) as Sk.
+  cbn [fst] in Sk. apply andb_true_iff in Sk as [_ Nb].
+  assert (Esplit : replace_nth (summary_line_index s1) t (record_texts (fst rg))
+           = headline_text (fst rg) :: s1 ++ t :: (s2 ++ flat_map (entry_texts (indent_text (sr_indent (fst rg)))) (sr_entries (fst rg)))).
+  { unfold record_texts, summary_line_index. rewrite Es. cbn [replace_nth]. f_equal.
+    rewrite <- app_assoc. cbn [app]. apply replace_nth_app. }
+  assert (Tok : text_ok t = true).
+  { unfold raw_texts in T. rewrite forallb_app in T. apply andb_true_iff in T as [_ T].
+    rewrite forallb_forall in T. apply T. apply in_flat_map.
+    exists (replace_nth (summary_line_index s1) t (record_texts (fst rg)), snd rg). split.
+    - rewrite (inject_group k _ t d rg Hk). eapply nth_error_In. apply nth_error_replace_nth with (x := (record_texts (fst rg), snd rg)).
+      apply (map_nth_error (fun rg => (record_texts (fst rg), snd rg)) k (do_records d) Hk).
+    - cbn [fst snd]. rewrite Esplit. apply in_or_app. left. right. apply in_or_app. right. left. reflexivity. }
+  change (forallb (fun t => negb (blank_text t)) (replace_nth (summary_line_index s1) t (record_texts (fst rg))) = true) in Nb.
+  change (sig_fails (replace_nth (summary_line_index s1) t (record_texts (fst rg)))).
+  rewrite Esplit in Nb |- *. apply (blank_summary_fails (fst rg) s1 s s2 t Wr Es Tok Hc Hfi). exact Nb.
 Qed.
